@@ -170,6 +170,66 @@ theorem glb_frame (json bin : List UInt8) (hsz : (glbFrame json bin).length < 2 
   · intro hb
     rw [hlen, if_neg (by omega)]; omega
 
+private theorem field_aux' (pre x post : List UInt8) (o : Nat) (ho : pre.length = o) (hx : x.length = 4) :
+    leVal (((pre ++ (x ++ post)).drop o).take 4) = leVal x := by
+  rw [List.drop_left' ho, List.take_left' hx]
+
+private theorem field0_aux (x post : List UInt8) (hx : x.length = 4) :
+    leVal (((x ++ post).drop 0).take 4) = leVal x := by
+  rw [List.drop_zero, List.take_left' hx]
+
+theorem binpart_words (bin : List UInt8) (hpos : bin.length > 0) (hsz : bin.length + pad4 bin.length < 4294967296) :
+    readWord (glbBinPart bin) 0 = bin.length + pad4 bin.length
+    ∧ readWord (glbBinPart bin) 4 = 0x004E4942
+    ∧ ((glbBinPart bin).drop 8).take bin.length = bin
+    ∧ (glbBinPart bin).drop (8 + bin.length) = List.replicate (pad4 bin.length) 0x00 := by
+  have hne : ¬ (bin.length + pad4 bin.length = 0) := by omega
+  have hval : leVal (leBytes 4 (bin.length + pad4 bin.length)) = bin.length + pad4 bin.length :=
+    leVal_leBytes 4 (bin.length + pad4 bin.length) (by omega)
+  have hval2 : leVal (leBytes 4 0x004E4942) = 0x004E4942 := leVal_leBytes 4 0x004E4942 (by decide)
+  have hbp : glbBinPart bin = leBytes 4 (bin.length + pad4 bin.length) ++ (leBytes 4 0x004E4942 ++ ((bin ++ List.replicate (pad4 bin.length) 0x00) ++ [])) := by
+    unfold glbBinPart; rw [if_neg hne]
+  have h8 : (leBytes 4 (bin.length + pad4 bin.length) ++ leBytes 4 0x004E4942).length = 8 := by
+    rw [List.length_append, length_leBytes, length_leBytes]
+  have hbp2 : glbBinPart bin = (leBytes 4 (bin.length + pad4 bin.length) ++ leBytes 4 0x004E4942) ++ (bin ++ (List.replicate (pad4 bin.length) 0x00)) := by
+    rw [hbp]; simp only [List.append_assoc, List.append_nil]
+  refine ⟨?_, ?_, ?_, ?_⟩
+  · unfold readWord
+    rw [hbp, field0_aux _ _ (length_leBytes _ _)]
+    exact hval
+  · unfold readWord
+    rw [hbp, field_aux' _ (leBytes 4 0x004E4942) _ 4 (length_leBytes _ _) (length_leBytes _ _)]
+    exact hval2
+  · rw [hbp2, List.drop_left' h8, List.take_left' rfl]
+  · have h8b : ((leBytes 4 (bin.length + pad4 bin.length) ++ leBytes 4 0x004E4942) ++ bin).length = 8 + bin.length := by
+      rw [List.length_append, h8]
+    rw [hbp2, ← List.append_assoc, List.drop_left' h8b]
+
+/-- BIN chunk of a GLB file with a non-empty buffer, read back from the bytes: directly after the JSON chunk comes the
+    chunk length word = padded buffer length (a multiple of 4), the type word `BIN\0`, the buffer itself, then only
+    zero padding up to the end of the file -/
+theorem glb_frame_bin (json bin : List UInt8) (hsz : (glbFrame json bin).length < 2 ^ 32) (hpos : bin.length > 0) :
+    readWord (glbFrame json bin) (20 + (json.length + pad4 json.length)) = bin.length + pad4 bin.length
+    ∧ (bin.length + pad4 bin.length) % 4 = 0
+    ∧ readWord (glbFrame json bin) (20 + (json.length + pad4 json.length) + 4) = 0x004E4942
+    ∧ ((glbFrame json bin).drop (20 + (json.length + pad4 json.length) + 8)).take bin.length = bin
+    ∧ (glbFrame json bin).drop (20 + (json.length + pad4 json.length) + (8 + bin.length)) = List.replicate (pad4 bin.length) 0x00
+    ∧ (glbFrame json bin).length = 20 + (json.length + pad4 json.length) + 8 + (bin.length + pad4 bin.length) := by
+  obtain ⟨_, _, _, _, _, _, _, _, hdrop, _, hmb⟩ := glb_frame json bin hsz
+  have hlen := glb_frame_length json bin
+  rw [if_pos hpos] at hlen
+  have hsz' : (glbFrame json bin).length < 4294967296 := by simpa using hsz
+  obtain ⟨w0, w4, w8, wz⟩ := binpart_words bin hpos (by omega)
+  refine ⟨?_, hmb, ?_, ?_, ?_, by omega⟩
+  · have : readWord (glbFrame json bin) (20 + (json.length + pad4 json.length)) = readWord (glbBinPart bin) 0 := by
+      unfold readWord; rw [hdrop, List.drop_zero]
+    rw [this, w0]
+  · have : readWord (glbFrame json bin) (20 + (json.length + pad4 json.length) + 4) = readWord (glbBinPart bin) 4 := by
+      unfold readWord; rw [← List.drop_drop, hdrop]
+    rw [this, w4]
+  · rw [← List.drop_drop, hdrop, w8]
+  · rw [← List.drop_drop, hdrop, wz]
+
 /-! ### min / max folds -/
 
 private theorem foldl_bmin_some (c : Comp) (col : List Nat) (a : Nat) :
@@ -381,9 +441,11 @@ private theorem mem_column {us : List (List Nat)} {j x : Nat} (h : x ∈ column 
   exact ⟨v, hv, List.mem_of_getElem? hx⟩
 
 /-- admissible vector data: every vector has `dim` components, every component fits the component type, no binary32
-    infinity -/
+    infinity, and no NaN in a FLOAT VEC4 (the VEC4 loop does not skip NaNs: Go's `math.Min/Max` would make the bound NaN,
+    which the model's order-based fold does not reproduce; `encoding/json` refuses such a document anyway) -/
 def VecsOK (comp : Comp) (dim : Nat) (vecs : List (List Nat)) : Prop :=
   ∀ v ∈ vecs, v.length = dim ∧ ∀ x ∈ v, x < 256 ^ comp.size ∧ ¬ (comp = .f32 ∧ (x = posInf32 ∨ x = negInf32))
+    ∧ ¬ (comp = .f32 ∧ dim = 4 ∧ isNaN32 x = true)
 
 def vecAccessor (view : Nat) (comp : Comp) (dim : Nat) (vecs : List (List Nat)) : Accessor :=
   { view := view, comp := comp, dim := dim, count := vecs.length,
@@ -416,12 +478,12 @@ theorem boundsOK_vec (view : Nat) (comp : Comp) (dim : Nat) (vecs : List (List N
       apply isMinOf_fold
       intro x hx
       obtain ⟨v, hv, hxv⟩ := mem_column hx
-      exact ((h v (List.mem_filter.mp hv).1).2 x hxv).2
+      exact ((h v (List.mem_filter.mp hv).1).2 x hxv).2.1
     · intro j _
       apply isMaxOf_fold
       intro x hx
       obtain ⟨v, hv, hxv⟩ := mem_column hx
-      exact ((h v (List.mem_filter.mp hv).1).2 x hxv).2
+      exact ((h v (List.mem_filter.mp hv).1).2 x hxv).2.1
 
 theorem accOK_new_vec (buf : List UInt8) (views : List View) (comp : Comp) (dim : Nat) (vecs : List (List Nat))
     (hc : comp = .f32 ∨ comp = .u8) (h : VecsOK comp dim vecs) :
@@ -666,7 +728,7 @@ theorem alignmentWitness_ok : ∀ op ∈ alignmentWitness, OpOK op := by
   intro op hop
   simp only [alignmentWitness, List.mem_cons, List.mem_nil_iff, or_false] at hop
   rcases hop with rfl | rfl | rfl | rfl <;>
-    simp [OpOK, VecsOK, Comp.size, posInf32, negInf32]
+    simp [OpOK, VecsOK, Comp.size, posInf32, negInf32, isNaN32]
 
 theorem gltf_alignment_counterexample : ¬ C06_alignment := by
   intro h
@@ -760,7 +822,7 @@ example : ∀ op ∈ ([.vec .f32 3 [[0, 0x3f800000, 0xbf800000], [0x3f333333, 0,
     .idx [0, 1, 1] 2, .idx [65535, 3] 65536] : List Op), OpOK op := by
   intro op hop
   simp only [List.mem_cons, List.mem_nil_iff, or_false] at hop
-  rcases hop with rfl | rfl | rfl | rfl <;> simp [OpOK, VecsOK, Comp.size, posInf32, negInf32]
+  rcases hop with rfl | rfl | rfl | rfl <;> simp [OpOK, VecsOK, Comp.size, posInf32, negInf32, isNaN32]
 
 example : (glbFrame [0x7b, 0x7d] [1, 2, 3]).length < 2 ^ 32 := by
   rw [glb_frame_length]; simp [pad4]
